@@ -13,7 +13,8 @@ RULE = ('exhaustive box: every string over {A,C,-} up to length 5 (thorough; see
         'countall (counter and prob); baskets of 0-5 sequences with i, a:b:c, (i,j), (a:b,j), and the assignment forms; '
         'every public method of _BioSeqStr/_BioBasketStr with random arguments against builtin str (extra_checks); '
         'non-trivial = distinct case that clamps a bound, uses a negative/None bound or step <> 1, crosses a gap, raises, '
-        'or works on a basket; HISTORIES (300 + 300 in quick): several calls on one BioSeq / one BioBasket plus an outside '
+        'or works on a basket; EQUALITY stream: mixed-case strings incl. meta/id/fts/data against str of every case, None, '
+        'ints, floats, bool, tuple/list of chars, bytes, object(), iterator: ==, !=, reflected ==, and basket in/count/index/== [..]; HISTORIES (300 + 300 in quick): several calls on one BioSeq / one BioBasket plus an outside '
         'sequence - repeated and fresh-object calls, gap-aware call / length-preserving edit (item, slice, reverse, translate, '
         '.data) / same call again, other gap strings in between, mutation of results of not-in-place calls, b[i] = b[k] and '
         'b[i] = x followed by edits through one holder, state compared after every step')
@@ -114,6 +115,10 @@ def model_term(case):
         t = 'BSetSlJ %s %s %s %s' % (coq_strs(c['b']), coq_sl(c['sl']), coq_ix(c['j']), coq_bs(c['v']))
     elif op == 'bsetij':
         t = 'BSetIJ %s %s %s %s' % (coq_strs(c['b']), coq_z(c['i']), coq_ix(c['j']), coq_bs(c['v']))
+    elif op == 'eqval':
+        t = 'OEqVal %s %s' % (coq_bs(c['s']), coq_operand(c['o']))
+    elif op == 'beqval':
+        t = 'BEqVal %s %s %s' % (coq_strs(c['b']), coq_operand(c['o']), coq_list([coq_operand(x) for x in c['os']]))
     elif op == 'hist':
         t = 'OHist %s %s' % (coq_bs(c['s']), coq_list([coq_hstep(h) for h in c['steps']]))
     elif op == 'bhist':
@@ -121,6 +126,43 @@ def model_term(case):
     else:
         raise ValueError(op)
     return 'out (run_C04 (%s))' % t
+
+
+# operands of == : {'t': 'str'|'none'|'int'|'float'|'bool'|'tuple'|'list'|'bytes'|'object'|'iter', 'v': ...}
+def py_operand(o):
+    t = o['t']
+    if t == 'str':
+        return o['v']
+    if t == 'none':
+        return None
+    if t in ('int', 'bool'):
+        return o['v'] if t == 'int' else bool(o['v'])
+    if t == 'float':
+        return float(o['v'])
+    if t == 'tuple':
+        return tuple(o['v'])
+    if t == 'list':
+        return list(o['v'])
+    if t == 'bytes':
+        return o['v'].encode('latin-1')
+    if t == 'iter':
+        return iter(o['v'])
+    return object()
+
+
+def coq_operand(o):
+    t = o['t']
+    if t == 'str':
+        return '(VS %s)' % coq_bs(o['v'])
+    if t == 'none':
+        return 'VNone'
+    if t == 'int':
+        return '(VI %s)' % coq_z(o['v'])
+    if t == 'bool':
+        return '(VB %s)' % coq_bool(o['v'])
+    if t in ('tuple', 'list'):
+        return '(VL %s)' % coq_list(['(VS %s)' % coq_bs(x) for x in o['v']])
+    return '(VE %s)' % coq_bs(t)           # float, bytes, object(), iterator: not a str
 
 
 def coq_trans(m):
@@ -214,6 +256,20 @@ def impl(case):
     op = case['op']
     if op == 'str':
         return None
+    if op == 'eqval':
+        seq = _mkseq(case)
+        o = case['o']
+        res = [_try(lambda: seq == py_operand(o)), _try(lambda: seq != py_operand(o)), _try(lambda: py_operand(o) == seq)]
+        assert all(isinstance(r, (bool, dict)) for r in res), '== must give a bool'
+        return res
+    if op == 'beqval':
+        b = _mkbasket(case['b'])
+        o = case['o']
+        res = [_try(lambda: py_operand(o) in b), _try(lambda: b.count(py_operand(o))), _try(lambda: b.index(py_operand(o))),
+               _try(lambda: b == [py_operand(x) for x in case['os']])]
+        ne = _try(lambda: b != [py_operand(x) for x in case['os']])
+        assert isinstance(res[3], dict) or ne == (not res[3]), '!= of baskets'
+        return res
     if op == 'hist':
         return _run_hist(case)
     if op == 'bhist':
@@ -549,6 +605,16 @@ def spec(case, got):
     up = lambda s: s.upper()
     if op == 'str':
         return None          # decided in extra_checks (Python against Python); the record carries the reason
+    if op == 'eqval':
+        su = up(case['s'])
+        exp = [_try(lambda: su == py_operand(case['o'])), _try(lambda: su != py_operand(case['o'])), _try(lambda: py_operand(case['o']) == su)]
+        return None if got == exp else 'str gives ==, !=, reflected == : %r; BioSeq gives %r' % (exp, got)
+    if op == 'beqval':
+        lst = [up(d) for d in case['b']]
+        po = lambda: py_operand(case['o'])
+        exp = [_try(lambda: po() in lst), _try(lambda: lst.count(po())), _try(lambda: lst.index(po())),
+               _try(lambda: lst == [py_operand(x) for x in case['os']])]
+        return None if got == exp else 'list of str gives in, count, index, == : %r; BioBasket gives %r' % (exp, got)
     if op == 'hist':
         return _spec_hist(case, got)
     if op == 'bhist':
@@ -892,6 +958,8 @@ def nontrivial(case, got):
         marks.add('box')
     elif op == 'hist':
         marks.add('hist')
+    elif op == 'eqval':
+        marks.add('eq:' + case['o']['t'])
     elif op in ('set',):
         marks |= _ix_marks(case['ix'], len(case['s']))
         marks.add('set')
@@ -1104,11 +1172,51 @@ def gen_cases(rng, tier):
                 cnt = len(range(n)[py_ix(c['sl'])])
             c['vs'] = [_rstring(rng)[:6] for _ in range(cnt)]
         cases.append(c)
+    # --- equality against arbitrary operands (str of every case, None, numbers, tuples, lists, bytes, object(), iterators)
+    cases += _gen_eq(rng, thorough)
     # --- histories: state carried between calls, shared objects (kept in the quick tier)
     for _ in range(300 * (4 if thorough else 1)):
         cases.append(_gen_hist(rng))
     for _ in range(300 * (4 if thorough else 1)):
         cases.append(_gen_bhist(rng))
+    return cases
+
+
+# ----------------------------------------------------------------------------- equality against arbitrary operands
+
+EQ_WORDS = ['META', 'meta', 'Meta', 'id', 'ID', 'fts', 'FTS', 'data', 'DATA', 'Data', 'ACGT', 'acgt', 'AcGt', 'A', 'a', '', '-', 'A-C', '4', 'N']
+
+
+def _operands(rng, s):
+    su = s.upper()
+    strs = [s, su, s.lower(), s.swapcase(), su.swapcase(), s + 'x', su + 'X', su[:-1], '', su[::-1]]
+    ops = [{'t': 'str', 'v': v} for v in strs]
+    ops += [{'t': 'none'}, {'t': 'int', 'v': 4}, {'t': 'int', 'v': 0}, {'t': 'int', 'v': len(su)}, {'t': 'float', 'v': '2.5'},
+            {'t': 'bool', 'v': True}, {'t': 'tuple', 'v': list(su)}, {'t': 'list', 'v': list(su)}, {'t': 'tuple', 'v': [su]},
+            {'t': 'bytes', 'v': su}, {'t': 'object'}, {'t': 'iter', 'v': su}]
+    return ops
+
+
+def _gen_eq(rng, thorough):
+    cases = []
+    words = list(EQ_WORDS) + [_rs(rng, rng.choice([1, 3, 6]), 'ACGTacgt-') for _ in range(20 if thorough else 4)]
+    for s in words:
+        allops = _operands(rng, s)
+        for o in (allops if thorough or s in ('META', 'meta', 'data', 'ACGT', '') else rng.sample(allops, 8)):
+            cases.append({'op': 'eqval', 's': s, 'o': o})
+    for _ in range(400 if thorough else 120):
+        b = [rng.choice(words) for _ in range(rng.choice([0, 1, 2, 3, 4]))]
+        pool = [x for d in (b or ['ACGT']) for x in _operands(rng, d)]
+        o = rng.choice(pool)
+        r = rng.random()
+        if r < 0.4:
+            os_ = [{'t': 'str', 'v': d.upper()} for d in b]                  # equal list
+        elif r < 0.8 and b:
+            os_ = [{'t': 'str', 'v': d.upper()} for d in b]
+            os_[rng.randrange(len(b))] = rng.choice(pool)                     # one element replaced
+        else:
+            os_ = [rng.choice(pool) for _ in range(rng.choice([0, 1, len(b), len(b) + 1]))]
+        cases.append({'op': 'beqval', 'b': b, 'o': o, 'os': os_})
     return cases
 
 
@@ -1426,10 +1534,12 @@ def _raw(BioSeq, data):
     return s
 
 
-LEVEL_TEXT = ('Machine-checked Coq theorems (31, all closed under the global context), for every list/str and every integer or None bound: '
+LEVEL_TEXT = ('Machine-checked Coq theorems (32, all closed under the global context), for every list/str and every integer or None bound: '
               'CPython slice normalisation (PySlice_AdjustIndices) yields firstn/skipn of the clamped bounds for contiguous slices, the '
               'slice-length formula and the element law r[k] = s[start + k*step] for every step, s[::-1] = rev s, s[:k] + s[k:] = s, the '
-              'negative-index law; BioSeq indexing/slicing, len, ==, +, +=, right + equal the str operation on the residue string; item '
+              'negative-index law; BioSeq indexing/slicing, len, +, +=, right + equal the str operation on the residue string; == against any '
+              'object is true exactly for a str with the same characters (case-sensitive; None, numbers, tuples, lists, bytes unequal) and '
+              'basket in/count/index/== [..] follow; item '
               'assignment equals list assignment + join for every slice (contiguous: splice; extended: ValueError unless sizes match, '
               'else element-wise); gap-aware contiguous slicing selects exactly the residues of the degapped slice for all bounds, gap-aware '
               'int indexing the i-th residue; the .str wrappers return the str result / update in place (parametric in the method); '
